@@ -1,4 +1,4 @@
-"""C09 — decoding into a reused object equals decoding into a fresh one (DESIGN.md §4 C09); TL1 part (TL2/JSON parts: see C03/C05 builders)."""
+"""C09 — decoding into a reused object equals decoding into a fresh one (DESIGN.md §4 C09): TL1 histories for every schema, mixed TL1/TL2/JSON/Reset histories for schemas with TL2 code."""
 from checks import codec_common as cc
 from vlib.core import hx
 
@@ -57,4 +57,56 @@ def run(c):
             f = l.split(" ")
             if f[0] == "codec.reset" and a != zero.get((f[1], f[2])) and a != "no-reset":
                 c.oracle_fail(l, "Reset does not make the object equal to a fresh one", l)
+        # mixed-encoding histories (TL1 / TL2 / JSON / Reset) into one object, for schemas with TL2 code
+        if sc.tl2:
+            from vlib.core import run_lines
+            prep = []
+            for inst, it in sc.items:
+                if inst["kind"] == "union" and False:
+                    continue
+                for k in range(10 if c.thorough else 5):
+                    g.zero_bias = (0, 50, 90, 90, 97)[k % 5]        # dense and sparse objects: stale data shows when a sparse one follows a dense one
+                    b = g.value(inst["idx"], False, [], 0)
+                    prep.append((inst, hx(b)))
+                g.zero_bias = 0
+            tl2s = run_lines(sc.impl, ["codec.x2 %s %d %s 1 %s" % (sc.sid, i["idx"], i["tlname"], h) for i, h in prep], prefix=pre, mem_limit=c.impl_mem_limit)
+            jts = run_lines(sc.impl, ["codec.jtext %s %d %s 1 %s" % (sc.sid, i["idx"], i["tlname"], h) for i, h in prep], prefix=pre, mem_limit=c.impl_mem_limit)
+            pool = {}
+            for (inst, h), a2, aj in zip(prep, tl2s, jts):
+                enc = [("1", h)]
+                if a2.startswith("ok "):
+                    w2 = dict(p.split("=", 1) for p in a2.split(" ")[1:] if "=" in p).get("w2")
+                    if w2 and w2 not in ("n/a", "panic", "werr"):
+                        enc.append(("2", w2))
+                if aj.startswith("ok "):
+                    t = aj.split(" ")[1] if len(aj.split(" ")) > 1 else None
+                    if t and t != "-" and "5c" not in [t[i:i + 2] for i in range(0, len(t), 2)]:   # escapes: see C05 known finding (dictionary keys)
+                        enc.append(("j", t))
+                pool.setdefault(inst["idx"], (inst, []))[1].extend(enc)
+            mixed = []
+            for idx, (inst, encs) in pool.items():
+                for _ in range(6 if c.thorough else 3):
+                    steps = []
+                    for _ in range(rng.range(2, 6)):
+                        k, h = rng.choice(encs)
+                        r = rng.below(8)
+                        if r == 0 and h != "-":
+                            h = h[:2 * rng.below(len(h) // 2 + 1)] or "-"     # truncated input: a failed decode leaves a dirty object
+                        elif r == 1:
+                            steps.append("r:-")
+                        steps.append(k + ":" + h)
+                    mixed.append("codec.seqx %s %d %s %s" % (sc.sid, inst["idx"], inst["tlname"], " ".join(steps)))
+            resm = c.tie("reuse-mixed:" + sc.sid, mixed, sc.impl, model, prefix=pre)
+            # oracle on the implementation alone: the same step decoded into a fresh object
+            single = {}
+            for l, a, _ in resm:
+                f = l.split(" ")
+                for st, part in zip(f[4:], a.split(" | ")):
+                    single.setdefault("codec.seqx %s %s %s %s" % (f[1], f[2], f[3], st), []).append((l, part))
+            sl = sorted(single)
+            ress = c.tie("fresh-mixed:" + sc.sid, sl, sc.impl, model, prefix=pre)
+            for l, a, _ in ress:
+                for src, part in single[l]:
+                    if part != a:
+                        c.oracle_fail(src, "decoding into a reused object differs from decoding into a fresh one (step %s: reused %s, fresh %s)" % (l.split(" ")[4][:50], part[:70], a[:70]), src)
     c.extra["rule"] = "histories of 2–6 decodes (valid, truncated, mutated) into one object per factory item; Reset after a decode; fresh-object baseline"
